@@ -116,7 +116,7 @@ let () =
             (set_of1 heqb hfun hb ha (h_prove1 pos t k));
           print_endline ("v2\t" ^ show_res show_term (h_verify2 pos t k));
           print_endline ("v1\t" ^ show_res show_term (h_verify1 pos t k))) keys
-    | ("range2" | "range1" as cmd) :: h :: rest ->
+    | ("range2" | "range1" | "range2c" as cmd) :: h :: rest ->
         (* range2 <height> ops | first | k:v ... | nil / left right | mutations *)
         let hn = nat_of_int (int_of_string h) in
         let rec parts acc cur = function
@@ -128,7 +128,14 @@ let () =
              let t = h_run hn (List.map kv ops) in
              let bits s = bits_of_Z hn (z_of_hex s) in
              let kvs = List.map (fun s -> let (k, v) = kv s in (bits_of_Z hn k, HC v)) kvs in
-             if cmd = "range2" then begin
+             if cmd = "range2c" then begin
+               (* the certified verifier (Proofs_F.range2_cert_sound) *)
+               let proof = match proof with
+                 | ["nil"] -> None
+                 | [l; r] -> Some (apply_muts (h_range_proof2 t (bits l) (bits r)) muts)
+                 | _ -> failwith "range2c proof" in
+               print_endline (show_rres (h_range2_cert hn t (bits first) kvs proof))
+             end else if cmd = "range2" then begin
                let proof = match proof with
                  | ["nil"] -> None
                  | [l; r] -> Some (apply_muts (h_range_proof2 t (bits l) (bits r)) muts)
@@ -142,6 +149,31 @@ let () =
                print_endline (show_rres (h_range1 hn t (bits first) kvs proof))
              end
          | _ -> failwith "range2 parts")
+    | "rpcslot" :: cv :: sr :: cr :: kr :: addr :: cls :: nonce :: sroot :: h1 :: h2 :: h3 :: key :: rest ->
+        (* rpcslot commit state_root croot kroot addrbits class nonce sroot h1 h2 h3 keybits | contract entries | storage entries *)
+        let rec parts acc cur = function
+          | [] -> List.rev (List.rev cur :: acc)
+          | "|" :: r -> parts (List.rev cur :: acc) [] r
+          | x :: r -> parts acc (x :: cur) r in
+        let z = z_of_hex in
+        let tb = ref [((z cls, z sroot), z h1); ((z h1, z nonce), z h2); ((z h2, Z0), z h3)] in
+        let entry e = match String.split_on_char '=' e with
+          | [hk; body] ->
+              (match String.split_on_char ',' body with
+               | ["B"; l; r; inner] ->
+                   let l = cval (parse_child l) and r = cval (parse_child r) in
+                   tb := ((l, r), z inner) :: !tb; (z hk, PBin (l, r))
+               | ["E"; bits; c; inner] ->
+                   let p = parse_bits bits and c = cval (parse_child c) in
+                   tb := ((c, z_of_path p), z inner) :: !tb; (z hk, PEdge (p, c))
+               | _ -> failwith ("entry body " ^ body))
+          | _ -> failwith ("entry " ^ e) in
+        (match parts [] [] rest with
+         | [[]; cp; sp] | [cp; sp] ->
+             let cp = List.map entry cp and sp = List.map entry sp in
+             print_endline (show_res hex_of_z (z_rpc_slot (List.rev !tb) (z cv) (z sr) (z cr) (z kr) cp (parse_bits addr)
+                                                 (z cls) (z nonce) (z sroot) sp (parse_bits key)))
+         | _ -> failwith "rpcslot parts")
     | "verify" :: kind :: root :: keybits :: entries ->
         let root = z_of_hex root and k = parse_bits keybits in
         let tb = ref [] in
